@@ -16,6 +16,7 @@ PRELUDE = r'''
 #define VERIF_STRCAP %(strcap)d
 #include "verif_shim.h"
 #define GEOGRAPHICLIB_WORDS_BIGENDIAN 0
+%(ppdefs)s
 int verif_thrown;
 int verif_thrown_other;
 size_t verif_ghost_idx, verif_ghost_idx2, verif_ghost_idx3, verif_ghost_idx4;
@@ -27,6 +28,9 @@ long long vm_last_k;
 struct vbuf { char c[VERIF_STRCAP]; };
 struct vbuf nondet_vbuf(void);
 '''
+
+
+PPDEFS = '\n'.join('#define %s %d' % (k, v) for k, v in sorted(X.PP_DEFINES.items()) if k.startswith('GEOGRAPHICLIB_') and k not in ('GEOGRAPHICLIB_WORDS_BIGENDIAN', 'GEOGRAPHICLIB_DATA'))
 
 
 class Job:
@@ -181,7 +185,7 @@ def build_tu(proj, job):
     inline_infos.sort(key=lambda t: AUTO_ORDER.index(t[0].qualname) if t[0].qualname in AUTO_ORDER else 99)
     # the function itself (recursion / overload siblings are not in the table unless listed)
     contract = T.Contract(T.contract_path(job.contract_name or (job.name if job.lemma else fi.cname)))
-    parts = [PRELUDE % dict(strcap=job.strcap)]
+    parts = [PRELUDE % dict(strcap=job.strcap, ppdefs=PPDEFS)]
     # constants: Math always, own class, extra classes
     seen = set()
     # const_classes entries starting with '<' are emitted before the function's own class (its constants use them)
@@ -199,7 +203,16 @@ def build_tu(proj, job):
     for cfi, _ in callee_infos + inline_infos:
         if cfi.is_method:
             need_struct.add(cfi.cls)
+    opaque = set()
     for c in sorted(need_struct):
+        for t in T.member_class_types(proj, c, real):
+            if t not in need_struct:
+                opaque.add(t)
+    for t in sorted(opaque):
+        parts.append('struct %s { int verif_opaque_; };   /* data member of class type: contents not modelled */' % t)
+    # a struct that embeds another must come after it
+    order = sorted(need_struct, key=lambda c: len([t for t in T.member_class_types(proj, c, real) if t in need_struct]))
+    for c in order:
         parts.append(T.emit_struct(proj, c, real))
     parts.append(T.capture_decls(contract))
     ghost_done = set()
@@ -227,7 +240,7 @@ def build_tu(proj, job):
         if not cc.clauses:
             raise ExtractError('no contract file for replaced callee %s (%s)' % (cfi.cname, cc.path))
         parts.append(emit_ghost_of(cc))
-        parts.append(T.callee_decl(cfi, cc))
+        parts.append(T.callee_decl(cfi, cc, ghost=opt.get('ghost', True)))
         callee_contracts.append(cc)
         replace_cnames.append(cfi.cname)
     parts.append(emit_ghost_of(contract))
@@ -235,7 +248,7 @@ def build_tu(proj, job):
     metas = []
     for cfi, opt in inline_infos:
         ex = T.extract_function(proj, cfi, functable, real, opt.get('srcrel'), opt.get('select'), report,
-                                contract=None, static_inline=True)
+                                contract=None, static_inline=True, own_cls=cls)
         parts.append(ex.text)
         metas.append(dict(function=cfi.qualname, role='inlined helper', file=ex.srcrel, lines=list(ex.lines), sha256=ex.sha))
     # the function under contract
@@ -258,7 +271,7 @@ def build_lemma_tu(proj, job, report):
     contract = T.Contract(T.contract_path(job.contract_name or job.name.replace('.', '_')))
     if contract.harness is None:
         raise ExtractError('lemma %s has no /*@ harness */' % job.name)
-    parts = [PRELUDE % dict(strcap=job.strcap)]
+    parts = [PRELUDE % dict(strcap=job.strcap, ppdefs=PPDEFS)]
     seen = set()
     for c in ['Math'] + [c.lstrip('<') for c in job.const_classes]:
         if c not in seen:
